@@ -320,7 +320,7 @@ def decide(prop, tier, seed):
 
     # obligations that fail only because of a listed known finding are reported separately
     n_known = sum(1 for v in violations if v.get('known'))
-    obligations -= n_known
+    obligations -= sum(1 for v in violations if v.get('known') and v.get('engine') in ('verus', 'kani'))
     evidence = {
         'property_id': prop, 'tier': tier, 'seed': seed, 'level': 'proof',
         'coverage': {
